@@ -179,7 +179,22 @@ var subtopOps = map[string]stateOp{
 	"sendCoinsToSubaccount": {kind: "move", field: []string{"CreatorBal", "SubBal"}, args: []string{"creatorAddr", "subAccAddr"}},
 }
 
+// settleParticipation: payments and hook calls are EMITTED as effects (kind, a, b, c) in the order the code makes them: a payment
+// (0, from, to, amount) out of the module account the funder literal names, a hook (1 win / 2 loss / 3 refund / 4 fee refund, account, x, y).
+// Whether a payment can be made is decided where the effects are applied (as in the model); here it cannot fail.
+var settleOps = map[string]stateOp{
+	"refund":                    {kind: "emitpay", field: []string{"Effects"}, args: []string{"OrderBookLiquidityFunder=-1", "HouseFeeCollectorFunder=-3", "BetFeeCollectorFunder=-2"}},
+	"hooks.AfterHouseWin":       {kind: "emithook", field: []string{"Effects", "1"}},
+	"hooks.AfterHouseLoss":      {kind: "emithook", field: []string{"Effects", "2"}},
+	"hooks.AfterHouseRefund":    {kind: "emithook", field: []string{"Effects", "3"}},
+	"hooks.AfterHouseFeeRefund": {kind: "emithook", field: []string{"Effects", "4"}},
+	"SetOrderBookParticipation": {kind: "set", field: []string{"Stored"}},
+}
+
 var statefulList = []statefulSpec{{
+	recv: "Keeper", pkg: "x/orderbook/keeper", name: "settleParticipation", state: "settle", keeperPkg: "x/orderbook/keeper", ops: settleOps,
+	fields: []stateField{{"Effects", "list (Z * Z * Z * Z)"}, {"Stored", "G_OrderBookParticipation"}},
+}, {
 	recv: "Keeper", pkg: "x/subaccount/keeper", name: "TopUp", state: "subtop", keeperPkg: "x/subaccount/keeper", ops: subtopOps, ctxTime: "Now",
 	fields: []stateField{{"Exists", "bool"}, {"Summary", "G_AccountSummary"}, {"SummaryExists", "bool"}, {"Locks", "list G_LockedBalance"},
 		{"CreatorBal", "Z"}, {"SubBal", "Z"}, {"Now", "Z"}},
@@ -467,12 +482,34 @@ func isString(t types.Type) bool {
 	return ok && b.Info()&types.IsString != 0
 }
 
+// freeText: a string that is a message, not an identifier: a formatted string or a dropped string parameter
+func (c *fctx) freeText(a ast.Expr) bool {
+	switch x := a.(type) {
+	case *ast.CallExpr:
+		if s, ok := x.Fun.(*ast.SelectorExpr); ok {
+			if id, ok := s.X.(*ast.Ident); ok {
+				if pn, ok := c.info.Uses[id].(*types.PkgName); ok && pn.Imported().Path() == "fmt" {
+					return true
+				}
+			}
+		}
+	case *ast.Ident:
+		return c.dropVars[x.Name]
+	}
+	return false
+}
+
 // plainArgs: the arguments of a call of another stateful kernel: no context, no free text
 func (c *fctx) plainArgs(e *ast.CallExpr) []string {
 	var as []string
 	for _, a := range e.Args {
-		if isCtx(c.info.TypeOf(a)) || isString(c.info.TypeOf(a)) {
+		if isCtx(c.info.TypeOf(a)) {
 			continue
+		}
+		if isString(c.info.TypeOf(a)) {
+			if tv, ok := c.info.Types[a]; (ok && tv.Value != nil) || c.freeText(a) {
+				continue
+			}
 		}
 		as = append(as, c.expr(a))
 	}
@@ -515,6 +552,45 @@ func (c *fctx) findOp(op stateOp, call *ast.CallExpr) string {
 		c.fail("lookup under the key %s, expected one of %v", key, op.args)
 	}
 	return fmt.Sprintf("(%s_%s g_st, %s_%s g_st)", S, op.field[0], S, op.field[1])
+}
+
+// emitOp: append the effect of a payment or of a hook call to the effect log
+func (c *fctx) emitOp(op stateOp, call *ast.CallExpr, rest string) string {
+	S := "S_" + c.state.state
+	var vals []string
+	switch op.kind {
+	case "emitpay":
+		if len(call.Args) != 4 {
+			return c.fail("payment with %d arguments", len(call.Args))
+		}
+		src := ""
+		if cl, ok := call.Args[0].(*ast.CompositeLit); ok {
+			name := types.ExprString(cl.Type)
+			if i := strings.LastIndex(name, "."); i >= 0 {
+				name = name[i+1:]
+			}
+			for _, a := range op.args {
+				if kv := strings.SplitN(a, "=", 2); kv[0] == name {
+					src = "(" + kv[1] + ")"
+				}
+			}
+		}
+		if src == "" {
+			return c.fail("payment out of an unknown module account: %s", types.ExprString(call.Args[0]))
+		}
+		vals = []string{"0", src, c.expr(call.Args[2]), c.expr(call.Args[3])}
+	case "emithook":
+		vals = []string{op.field[1]}
+		for _, a := range call.Args {
+			if !isCtx(c.info.TypeOf(a)) {
+				vals = append(vals, c.expr(a))
+			}
+		}
+		for len(vals) < 4 {
+			vals = append(vals, "0")
+		}
+	}
+	return fmt.Sprintf("let g_st := set_%s_%s g_st (%s_%s g_st ++ [(%s)]) in\n  %s", S, op.field[0], S, op.field[0], strings.Join(vals, ", "), rest)
 }
 
 // moveOp: the guarded transfer; okB / errB are the continuations with the error nil / non-nil
@@ -841,7 +917,7 @@ func (c *fctx) call(e *ast.CallExpr) string {
 			args = append(args, "CONSTANT_STRING")
 			continue
 		}
-		if c.state != nil && isString(c.info.TypeOf(a)) {
+		if c.state != nil && isString(c.info.TypeOf(a)) && c.freeText(a) {
 			args = append(args, "FREE_TEXT") // free text passed to a stateful callee: dropped there
 			continue
 		}
@@ -982,6 +1058,10 @@ func (c *fctx) call(e *ast.CallExpr) string {
 					case "LegacyNewDec", "LegacyNewDecFromInt", "LegacyNewDecFromBigInt":
 						return fmt.Sprintf("(dec_of_int %s)", args[0])
 					case "NewIntFromBigInt":
+						return args[0]
+					case "AccAddressFromBech32":
+						return fmt.Sprintf("(Some %s)", args[0]) // accounts are identified by their address string: parsing succeeds
+					case "MustAccAddressFromBech32":
 						return args[0]
 					case "NewCoin":
 						// a coin is its amount (the denomination is dropped; NewCoin panics on a negative amount, which the lemmas exclude)
@@ -1445,6 +1525,9 @@ func (c *fctx) stmts(list []ast.Stmt) string {
 									if op, ok := c.stateOpOf(f); ok && op.kind == "ticket" {
 										return c.ticketOp(op, call, rest, thenB)
 									}
+									if op, ok := c.stateOpOf(f); ok && op.kind == "emitpay" {
+										return c.emitOp(op, call, rest()) // cannot fail here: the error branch is never taken
+									}
 									// another stateful kernel that returns an error: the new state or the error branch
 									if op, ok := c.stateOpOf(f); ok && op.kind == "callerr" {
 										return fmt.Sprintf("match %s with\n  | Some g_st => %s\n  | None => %s\n  end", c.expr(call), rest(), thenB)
@@ -1751,6 +1834,9 @@ func (c *fctx) stmts(list []ast.Stmt) string {
 				return rest()
 			}
 			if f, ok := call.Fun.(*ast.SelectorExpr); ok {
+				if op, ok := c.stateOpOf(f); ok && (op.kind == "emitpay" || op.kind == "emithook") {
+					return c.emitOp(op, call, rest())
+				}
 				if op, ok := c.stateOpOf(f); ok && op.kind != "get" {
 					return c.applyStateOp(op, c.stateArgs(op, call), rest())
 				}
